@@ -93,6 +93,21 @@ def run(chk):
         chk.case(nontrivial_key=("zero-bin", tuple(xs)) if want else None)
         if real != ("ok", want):
             chk.violation("C05|pcDelta|zero-bin", f"count at distance 0 is {real}, expected sum n_i(n_i-1)/2 = {want}", {"xs": xs})
+    # long sequences: distances beyond 255 must land in the right bin (no wrap-around in the distance matrix)
+    longs = ["A" * 300, "C" * 300, "A" * 150 + "C" * 150, "A" * 40, "A" * 299 + "C"]
+    real = core.call_real(lambda: [int(v) for v in ds.pcDelta(longs, bins=[0, 1, 2, 100, 200, 290, 301], normalize=False)])
+    from Levenshtein import distance as levd0
+    vals = [levd0(longs[i], longs[j]) for i in range(len(longs)) for j in range(i + 1, len(longs))]
+    edges = [0, 1, 2, 100, 200, 290, 301]
+    want = [sum(1 for v in vals if (edges[b] <= v < edges[b + 1]) or (b == len(edges) - 2 and v == edges[-1])) for b in range(len(edges) - 1)]
+    chk.case(nontrivial_key="long-strings")
+    if real != ("ok", want):
+        chk.violation("C05|pcDelta|long-strings", f"pcDelta on sequences of length 300 = {real}, expected {want} (distances above 255)", {"lengths": [len(x) for x in longs]})
+    real2 = core.call_real(lambda: [int(v) for v in ds.pcDelta(longs[:2], longs[2:], bins=edges, normalize=False)])
+    vals2 = [levd0(a, b_) for a in longs[:2] for b_ in longs[2:]]
+    want2 = [sum(1 for v in vals2 if (edges[b] <= v < edges[b + 1]) or (b == len(edges) - 2 and v == edges[-1])) for b in range(len(edges) - 1)]
+    if real2 != ("ok", want2):
+        chk.violation("C05|pcDelta|long-strings-cross", f"pcDelta cross on long sequences = {real2}, expected {want2}", {})
     # bins = 0 -> pc of the same arguments
     for _ in range(15):
         xs = gen.sub_collection(rng, pool[:8], rng.randint(2, 12))
@@ -187,6 +202,15 @@ def run(chk):
             chk.violation("C05|pcDelta|maxseqs|differs", f"pcDelta(maxseqs={m}) is not the histogram of a sub-sample of {min(N, m)} elements",
                           {"xs": xs, "m": m, "real": real[1], "of_subsample": want})
     # ---- background table bins
+    # history: editing the returned bins must not change what a later call returns
+    first = core.call_real(lambda: ds.load_pcDelta_background())
+    if first[0] == "ok":
+        try:
+            first[1][1][-1] = 1000
+            first[1][1][0] = -5
+            first[1][0].iloc[0, 0] = 123.0
+        except Exception:  # noqa
+            pass
     nb = core.call_real(lambda: ds.load_pcDelta_background(return_bins=False))
     back = core.call_real(lambda: ds.load_pcDelta_background())
     if nb[0] != "ok" or back[0] != "ok" or not nb[1].equals(back[1][0]):
